@@ -79,7 +79,18 @@ def gen_tree(rng, depth, wellformed, w, top=True):
     if r < 0.72:
         return "i%016x" % (rng.choice([-1, -5, -(2 ** 31), -(2 ** 63), -(2 ** 53) - 1, -rng.randrange(1, 2 ** 63)]) & (2 ** 64 - 1))
     if r < 0.86:
-        b = rng.choice(SPECIAL_REALS) if rng.random() < 0.4 else rng.randrange(0, 2 ** 64)
+        x = rng.random()
+        if x < 0.3:
+            b = rng.choice(SPECIAL_REALS)
+        elif x < 0.5:
+            # the doubles adjacent to a power of two (all-ones / all-zeros significands), both signs
+            b = ((rng.randrange(-70, 80) + 1023) << 52) + rng.choice([-1, 0, 1]) + (rng.choice([0, 1]) << 63)
+        elif x < 0.6:
+            # short decimals and integer-valued doubles (texts without a fraction, exponent texts)
+            import struct as _s
+            b = _s.unpack("<Q", _s.pack("<d", rng.choice([1, -1]) * rng.choice([1, 2, 3, 15, 25, 125]) * 10.0 ** rng.randrange(-30, 31)))[0]
+        else:
+            b = rng.randrange(0, 2 ** 64)
         if (b >> 52) & 0x7FF == 0x7FF:
             b &= ~(1 << 62)   # finite numbers only
         return "r%016x" % b
